@@ -21,7 +21,7 @@ RULE = ("0-5 parameters, values in {int, float, None, str (incl. multi-character
         "; also: equal-valued values of different type / sign (1, 1.0, True, 0.0, -0.0), str-subclass strings, agent classes / objects as single values, the constructor dict checked for aliasing, collections whose elements are unhashable (lists, dicts, rows of a 2-D array), one collection object declared under two names, 9-13 parameters of which 2-4 are collections")
 COMPONENTS = {"real": ["ECAgent.Batching.ParameterList.__init__ / add_parameter / remove_parameter / build"],
               "stub": ["none - the reference is an independent nested-loop product"]}
-PROBES = ["array_of_text_labels", "collection_of_a_list_or_tuple_subclass", "empty_collection", "no_parameters", "repeated_values", "string_value", "rebuild_after_mutation", "ndarray_value",
+PROBES = ["product_of_more_than_2048_combinations", "array_of_text_labels", "collection_of_a_list_or_tuple_subclass", "empty_collection", "no_parameters", "repeated_values", "string_value", "rebuild_after_mutation", "ndarray_value",
           "range_value", "constructor_dict", "reject_nonstr", "reject_duplicate", "reject_unknown", "constructor_rejected",
           "single_value_is_agent_class_or_object", "string_value_of_a_str_subclass", "values_with_unhashable_elements", "one_object_declared_under_two_names", "nine_or_more_parameters"]
 TECHNIQUE = "deterministic simulation: seeded declare/remove/build histories with injected rejected declarations and caller-side mutation vs an independent nested-loop product"
@@ -211,7 +211,15 @@ def generate(rng, tier):
         else:
             ops.append({"op": "remove", "name": "ghost"})
     ops.append({"op": "build", "mutate": "none", "again": True})
-    return {"init": init, "ops": ops}
+    sc = {"init": init, "ops": ops}
+    if rng.random() < 0.06 and (init is None or len(init) <= 3):
+        # (drawn last) a real sweep: two long ranges, a few thousand combinations - built before the rest of the history and
+        # withdrawn again, so the later (small) builds are not multiplied by it
+        sc["ops"] = [{"op": "add", "name": "big0", "v": {"k": "range", "v": rng.randint(40, 70)}, "same_object_as_last": False},
+                     {"op": "add", "name": "big1", "v": {"k": "range", "v": rng.randint(30, 60)}, "same_object_as_last": False},
+                     {"op": "build", "mutate": "none", "again": rng.random() < 0.5},
+                     {"op": "remove", "name": "big0"}, {"op": "remove", "name": "big1"}] + ops
+    return sc
 
 
 BAD = {"int": 32, "none": None, "tuple": ("a",), "bytes": b"p0"}
@@ -278,8 +286,10 @@ def execute(sc, ctx):
     def check_build(where, mutate="none", again=False):
         nonlocal nontrivial
         want = product([(n, as_list(s)) for n, s in decl])
-        if len(want) > 400:
+        if len(want) > 300000:
             return
+        if len(want) > 2048:
+            ctx.probe("product_of_more_than_2048_combinations")
         from simkit.core import Stuck, deadline
         try:
             with deadline(3.0 if any(s["k"] == "agentclass" for _, s in decl) else 30.0):
